@@ -64,7 +64,9 @@ Definition jdense (a : jarg) : dense Z := match a with JSp _ c => todense c | JD
 Definition jfill (a : jarg) (q : idx) : Z :=
   match a with JSp _ c => c_fill c | JDn d => dense_get 0 d (bcast_idx (d_shape d) q) end.
 
-Definition api_case := ((Z * list Z) * list jarg * sarr)%type.
+(* (function, goes through _Elemwise?, operands, what the implementation returned); COO/GCXS.isnan and
+   .isinf do not go through _Elemwise (they keep the operand's own format even for zero extents) *)
+Definition api_case := ((Z * list Z) * bool * list jarg * sarr)%type.
 
 Definition sort_entries (sh : shape) (coords : list idx) (data : list Z) : coo Z -> coo Z :=
   fun c0 => let es := sort_coo Z sh (combine coords data) in mkCOO sh (map fst es) (map snd es) (c_fill c0).
@@ -83,6 +85,7 @@ Definition fmt_ok (o : ofmt) (a : sarr) : bool :=
   | OutCoo, SCoo _ => true
   | OutDok, SDok _ _ _ => true
   | OutGcxs None, SGcxs _ => true
+  | OutGcxs (Some []), SGcxs _ => true                   (* operands below 2-d: compressed_axes=None *)
   | OutGcxs (Some ca), SGcxs g =>
     match g_shape g with
     | [] | [_] => true                                   (* compressed axes are None below 2-d *)
@@ -120,7 +123,7 @@ Definition property_fill (fd : Z * list Z) (args : list jarg) : Z :=
   ftable fd (map (fun a => match a with JSp _ c => c_fill c | JDn d => hd 0 (d_flat d) end) args).
 
 Definition judge_api (c : api_case) : Z :=
-  let '(fd, args, out) := c in
+  let '(fd, via, args, out) := c in
   match out_format (map jfmt args) with
   | None => match out with SExc ValueError => 0 | _ => 1 end
   | Some ofm =>
@@ -139,7 +142,7 @@ Definition judge_api (c : api_case) : Z :=
              (if spec_value_ok fd args (c_shape r) (SCoo r) then 7 else 12)
       else if negb (opt_eqb Z.eqb (sarr_fill out) (Some (c_fill r))) then 8
       else if negb (sarr_prunedb out) then 9
-      else if negb (fmt_ok ofm out) then 10
+      else if negb (fmt_ok (if via then result_format ofm (c_shape r) else ofm) out) then 10
       else match sarr_sorted_coo out with
            | Some c' => if negb (coo_eqb c' r) then 11
                         else if scalars_only args && negb (c_fill r =? property_fill fd args) then 13 else 0
@@ -150,7 +153,7 @@ Definition judge_api (c : api_case) : Z :=
 
 (* branch tag of a case: 100*class + number of mask pieces that contributed (sparse class only) *)
 Definition tag_api (c : api_case) : Z :=
-  let '(fd, args, out) := c in
+  let '(fd, via, args, out) := c in
   match elemwise Z Z.eqb 0 (ftable fd) (map joperand args) with
   | OutErr _ => 300
   | OutDense _ => 200
